@@ -412,10 +412,9 @@ Proof.
   destruct (drop_slashes (rev (drop_slashes rout))); discriminate.
 Qed.
 
-Definition at_fix (o : bytes) : bytes := if bytes_eqb o [at_] then [dash] else o.
-
+(* the sanitiser's result is accepted by the validating mode (which is what name_partial runs) *)
 Lemma ref_sanitize_valid s :
-  exists o, ref_sanitize s = Ok o /\ valid_partial o = true.
+  exists o, ref_sanitize s = Ok o /\ valid_tag o = true.
 Proof.
   unfold ref_sanitize, validate.
   assert (H : exists o, name_inner s true = Ok (Some o) /\ valid_tag o = true).
@@ -425,9 +424,7 @@ Proof.
     rewrite finish_true. eexists. split; [reflexivity|].
     pose proof (Q_trimmed r P1 (P2 ltac:(discriminate))) as HQ.
     destruct (Q_fix_first _ HQ) as [HQ2 Hd]. exact (valid_fix_last _ HQ2 Hd). }
-  destruct H as (o & -> & Hv). cbn [obind].
-  exists (at_fix o). unfold at_fix. split; [reflexivity|]. unfold valid_partial.
-  destruct (bytes_eqb o [at_]) eqn:E; [reflexivity|]. rewrite Hv, E. reflexivity.
+  destruct H as (o & -> & Hv). exists o. split; [reflexivity|exact Hv].
 Qed.
 
 (* ---- a valid name is left alone ----------------------------------------------------------------- *)
@@ -456,9 +453,9 @@ Proof.
   - cbn [is_nil andb]. apply IH; [exact Hs|]. intros _. apply H6. discriminate.
 Qed.
 
-Lemma ref_sanitize_id s : valid_partial s = true -> ref_sanitize s = Ok s.
+Lemma ref_sanitize_id s : valid_tag s = true -> ref_sanitize s = Ok s.
 Proof.
-  unfold valid_partial, valid_tag. intros H.
+  unfold valid_tag. intros H.
   repeat (apply Bool.andb_true_iff in H; destruct H as [H ?]).
   repeat match goal with Hx : negb _ = true |- _ => apply Bool.negb_true_iff in Hx end.
   assert (Hne : s <> []) by (destruct s; [discriminate|discriminate]).
@@ -476,5 +473,5 @@ Proof.
   rewrite Htr. unfold fix_first.
   match goal with Hx : beqb (hd x00 s) dot = false |- _ => rewrite Hx end.
   unfold fix_last. match goal with Hx : beqb (last s x00) dot = false |- _ => rewrite Hx end.
-  cbn [obind]. match goal with Hx : bytes_eqb s [at_] = false |- _ => rewrite Hx end. reflexivity.
+  reflexivity.
 Qed.
